@@ -6,3 +6,7 @@
 void h_split(void) { vvec* ret; const vstr* s; char in_delim; size_t in_max_splits; IN_GHOSTS; split(ret, s, in_delim, in_max_splits); VERIF_REACH(); }
 void h_join_delim(void) { vout* ret; const vsvec* items; char in_delim; IN_GHOSTS; join_delim(ret, items, in_delim); VERIF_REACH(); }
 void h_join_plain(void) { vout* ret; const vsvec* items; IN_GHOSTS; join_plain(ret, items); VERIF_REACH(); }
+
+#define SPLITFN split
+#define LEMMA_NAME l_join_split
+#include "harness/C08/lemma.h"
